@@ -441,18 +441,19 @@ def run_impl(cases, chunks=None):
     lines = [json.dumps({'m': c['py']['call'], 'args': c['py']['args']}) for c in cases]
     if not lines:
         return []
-    n = max(1, (len(lines) + chunks - 1) // chunks)
-    parts = [lines[i:i + n] for i in range(0, len(lines), n)]
-    with ThreadPoolExecutor(max_workers=chunks) as ex:
-        outs = list(ex.map(lambda part: C.run_py('proplib_runner.py', part, timeout=1500), parts))
-    res = []
-    for part, (o, err) in zip(parts, outs):
+    # stripe the cases over the workers (heavy entry points are adjacent in the list)
+    k = max(1, min(chunks, len(lines)))
+    parts = [lines[i::k] for i in range(k)]
+    with ThreadPoolExecutor(max_workers=k) as ex:
+        outs = list(ex.map(lambda part: C.run_py('proplib_runner.py', part, timeout=3000), parts))
+    res = [None] * len(lines)
+    for j, (part, (o, err)) in enumerate(zip(parts, outs)):
         if o and o[0].startswith('INIT'):
             INIT_STATUS.add(o[0])
             o = o[1:]
         if len(o) != len(part):
             o = o + ['CRASH ' + (err.strip().split('\n')[-1] if err.strip() else 'runner died')] * (len(part) - len(o))
-        res.extend(o)
+        res[j::k] = o
     return res
 
 
@@ -574,7 +575,7 @@ def run(tier, seed):
         if f.startswith(CID + '_violation_') and f.endswith('.json'):
             os.remove(os.path.join(C.OUT, f))
     rng = C.rng_for(seed, CID)
-    per_method = 32 if tier == 'quick' else 1500
+    per_method = 32 if tier == 'quick' else 500
     t0 = time.time()
 
     # 1. translate + proof stage
